@@ -158,6 +158,55 @@ def loadAfter (fs : List PlatformFile) (hist : List LoadEvent) (file variant : S
     Option Def × List (Option Def) :=
   (loadDef fs file variant, liveInstances fs hist)
 
+/-! ## the effective configuration: definition options, then the user's
+
+`setDriver` builds `finalOpts := p.AsOptions() ++ opts` and the constructors apply that list in
+order; every option is an unconditional assignment to its field (no option looks at another field
+when it is applied), and the driver is validated once, after the whole list. -/
+
+/-- the driver fields a definition / a user option list can set (levels, steps as opaque tokens) -/
+structure DriverCfg where
+  levels : List String := []
+  defaultLevel : String := ""
+  failedWhen : List String := []
+  onOpen : String := ""
+  onClose : String := ""
+  port : Nat := 22
+  transportType : String := "system"
+  deriving DecidableEq, Repr
+
+inductive CfgOpt
+  | levels (l : List String)
+  | default (s : String)
+  | failedWhen (l : List String)
+  | onOpen (f : String)
+  | onClose (f : String)
+  | port (n : Nat)
+  | transportType (s : String)
+  deriving DecidableEq, Repr
+
+/-- which field an option assigns -/
+def CfgOpt.field : CfgOpt → Nat
+  | .levels _ => 0 | .default _ => 1 | .failedWhen _ => 2 | .onOpen _ => 3 | .onClose _ => 4
+  | .port _ => 5 | .transportType _ => 6
+
+def applyOpt (c : DriverCfg) : CfgOpt → DriverCfg
+  | .levels l => { c with levels := l }
+  | .default s => { c with defaultLevel := s }
+  | .failedWhen l => { c with failedWhen := l }
+  | .onOpen f => { c with onOpen := f }
+  | .onClose f => { c with onClose := f }
+  | .port n => { c with port := n }
+  | .transportType s => { c with transportType := s }
+
+def applyAll (c : DriverCfg) (os : List CfgOpt) : DriverCfg := os.foldl applyOpt c
+
+/-- what `NewPlatform(name, host, user…)` configures: the definition's options, then the user's -/
+def effectiveCfg (defn user : List CfgOpt) : DriverCfg := applyAll {} (defn ++ user)
+
+/-- `network.NewDriver`'s only validation, on the final configuration -/
+def cfgConstructs (c : DriverCfg) : Bool := c.defaultLevel != "" && !c.levels.isEmpty
+
 /-! ## what `setDriver` does with a definition -/
 
 inductive DriverKind | generic | network | none
